@@ -1,9 +1,92 @@
-(* C06 — placeholder until Proofs/ExportSM_proofs.v lands *)
-From TsRs Require Import Base.Str Base.Outcome Model.ExportSM.
-Theorem C06_placeholder : forall fs p n, fs_get (fs_set fs p n) p = Some n.
-Proof.
-  intros fs p n. unfold fs_set. cbn [fs_get].
-  assert (H : Spec.PathOracle.list_str_eqb p p = true).
-  { induction p as [|x p IH]; cbn; [reflexivity|]. rewrite str_eqb_refl, IH. reflexivity. }
-  rewrite H. reflexivity.
-Qed.
+(* C06 — export results depend only on what was exported, not how or in what order.  Statements only; proofs in
+   Proofs/ExportSM_proofs.v over the state machine Model/ExportSM.v (file system x registry; export / export_all /
+   export_all_to with the recursive walk, after the fix e6b6a1a that normalises in export_to). *)
+From TsRs Require Import Base.Str Base.Outcome Gen.Tables Model.Path Model.Merge Model.MergeSpec Model.Imports Model.ExportSM
+  Spec.PathOracle Proofs.Path_proofs Proofs.Merge_history_proofs Proofs.ExportSM_proofs.
+From Coq Require Import List.
+Import ListNotations.
+
+(* a declaration that has been exported is never lost: within a process, whatever is exported afterwards (any history of
+   export calls and of file-system events, any outcome), every name recorded for a file stays recorded *)
+Theorem C06_registry_never_lost :
+  forall cfg U h st st' rs, names_ok (c_cwd cfg) ->
+    Forall (fun o => match o with NewProcess => False | _ => True end) h ->
+    run cfg U st h = (st', rs) ->
+    forall p name, registered (s_reg st) p name -> registered (s_reg st') p name.
+Proof. intros cfg U h st st' rs Hc Hh H p name. apply registered_le. exact (run_reg_le cfg U Hc h st st' rs Hh H). Qed.
+
+(* which entry point is used cannot be observed: T::export() IS export_into the default directory (both normalise the
+   path before the registry is asked) *)
+Theorem C06_entry_points_agree :
+  forall cfg U st i, names_ok (c_cwd cfg) ->
+    step cfg U st (Export i) = export_into cfg U st i (default_out_dir cfg).
+Proof. intros cfg U st i Hc. exact (export_is_export_into cfg U Hc st i). Qed.
+
+(* how the directory is spelled cannot be observed: two spellings that normalise to the same absolute path give the same
+   call (relative, absolute, `./`, trailing `/`, `..` segments: C08's theorems say when they do) *)
+Theorem C06_spelling_independent :
+  forall cfg U st i d1 d2,
+    (forall op, t_out (tget U i) = Some op -> absolute (c_cwd cfg) (path_join d1 op) = absolute (c_cwd cfg) (path_join d2 op)) ->
+    export_into cfg U st i d1 = export_into cfg U st i d2.
+Proof. exact export_into_spelling. Qed.
+
+(* stale files cannot leak: the first touch of a path in a process replaces whatever was there *)
+Theorem C06_first_touch_truncates :
+  forall st p name text st', reg_get (s_reg st) p = None ->
+    export_and_merge st p name text = (st', Ok tt) ->
+    fs_get (s_fs st') p = Some (File text) /\ reg_get (s_reg st') p = Some [name].
+Proof. exact first_touch_truncates. Qed.
+
+(* one path of the state machine IS the single-file model of C05: a successful export_and_merge is export_raw on the
+   view of that path and leaves the views of all other paths alone *)
+Theorem C06_one_path_is_a_C05_file :
+  forall st p name text st', Inv st -> export_and_merge st p name text = (st', Ok tt) ->
+    export_raw (view st p) name text = Ok (view st' p) /\ Inv st' /\ (forall q, q <> p -> view st' q = view st q).
+Proof. exact eam_refines. Qed.
+
+(* THE statement: for every history of export calls in a fresh process, on any initial directory contents (stale files
+   included), whatever the outcomes: every file of the final state went through a sequence of single-file exports, each the
+   (name, export text) of a type that some call of the history exports to that very path; and whenever those contributions
+   are the texts of a good set of items (C05's hypotheses), the file IS their canonical file — which depends on the SET
+   of items only (C05_canonical_order_free), not on call order, entry point, spelling or what was there before *)
+Theorem C06_final_files_are_canonical :
+  forall cfg U h fs st' rs, names_ok (c_cwd cfg) ->
+    forallb is_export h = true -> run cfg U (init_state fs) h = (st', rs) ->
+    forall q, exists l,
+      run_raw f_init l = Ok (view st' q) /\
+      Forall (fun it => exists j, (exists o, In o h /\ op_targets cfg U o j q) /\ contribution cfg U j it) l /\
+      (forall items, l = map (fun i => (it_ident i, item_text i)) items -> items <> [] -> good_history items ->
+         content_at (s_fs st') q = Some (canonical_file items)).
+Proof. intros cfg U h fs st' rs Hc. exact (final_files_canonical cfg U Hc h fs st' rs). Qed.
+
+(* every export text is the text of an item (notice, import groups, declaration block), so the last clause applies *)
+Theorem C06_export_text_is_an_item :
+  forall esm cwd U i dir s, export_to_string esm cwd U i dir = Ok s ->
+    exists m, s = item_text {| it_ident := t_ident (tget U i); it_imports := m; it_block := t_decl (tget U i) |}.
+Proof. exact export_text_is_item. Qed.
+
+(* non-vacuity: two types sharing a file, exported in both orders through different entry points and spellings, onto a
+   stale file: the same final file *)
+Module C06_ex.
+Local Open Scope string_scope.
+Definition l (s : String.string) : str := lit s.
+Definition A : tinfo := {| t_ident := l "A"; t_out := Some (l "shared.ts"); t_decl := l "export type A = number;"; t_visits := [1%nat]; t_wg := 0%nat |}.
+Definition B : tinfo := {| t_ident := l "B"; t_out := Some (l "shared.ts"); t_decl := l "export type B = A;"; t_visits := []; t_wg := 1%nat |}.
+Definition U : universe := [A; B].
+Definition cfg : config := {| c_esm := false; c_cwd := [l "w"]; c_env := None |}.
+Definition stale : fsys := [([l "w"; l "bindings"; l "shared.ts"], File (l "stale")); ([l "w"; l "bindings"], Dir); ([l "w"], Dir)].
+Definition tree (h : list op) := content_at (s_fs (fst (run cfg U (init_state stale) h))) [l "w"; l "bindings"; l "shared.ts"].
+End C06_ex.
+Example C06_nonvacuous :
+  C06_ex.tree [ExportAll 0%nat] = C06_ex.tree [Export 1%nat; ExportAllTo 0%nat (lit "./bindings/../bindings/"%string)] /\
+  C06_ex.tree [ExportAll 0%nat] = C06_ex.tree [ExportAllTo 1%nat (lit "/w/bindings"%string); Export 0%nat; Export 1%nat] /\
+  (exists c, C06_ex.tree [ExportAll 0%nat] = Some c /\ c <> lit "stale"%string).
+Proof. split; [vm_compute; reflexivity|]. split; [vm_compute; reflexivity|]. eexists. split; [vm_compute; reflexivity | discriminate]. Qed.
+
+Print Assumptions C06_registry_never_lost.
+Print Assumptions C06_entry_points_agree.
+Print Assumptions C06_spelling_independent.
+Print Assumptions C06_first_touch_truncates.
+Print Assumptions C06_one_path_is_a_C05_file.
+Print Assumptions C06_final_files_are_canonical.
+Print Assumptions C06_export_text_is_an_item.
